@@ -38,7 +38,7 @@ def sample_diff(rep, model):
         rep.ok('SAMPLE-DIFF', 'embedded example', 'sa/rules/c03.py', found='fires on the sample difference, silent on the index difference', nontrivial=False)
     else:
         rep.unresolved('SAMPLE-DIFF', 'embedded example', 'sa/rules/c03.py', f'the taint query no longer behaves as expected on the embedded example: {got}')
-    rep.floor('midpoint-search functions scanned for sample differences', n, 3)
+    rep.floor('midpoint-search functions scanned for sample differences', n, 2)
 
 
 def index_dtype(rep, model):
@@ -76,7 +76,7 @@ def index_dtype(rep, model):
         rep.ok('INDEX-DTYPE', 'embedded example', 'sa/rules/c03.py', found='fires on the untyped array of an appended list, silent on literals and dtype=int', nontrivial=False)
     else:
         rep.unresolved('INDEX-DTYPE', 'embedded example', 'sa/rules/c03.py', f'the query no longer behaves as expected on the embedded example: {got}')
-    rep.floor('midpoint-search functions scanned for untyped index arrays', n, 2)
+    rep.floor('midpoint-search functions scanned for untyped index arrays', n, 1)
 
 
 def _returned(fnode, lineno):
